@@ -296,3 +296,53 @@ func compactFacts(lf *leanFile) {
 	}
 	lf.def("compactLoops", "List (String × List String)", "["+strings.Join(rows, ",\n   ")+"]")
 }
+
+// lockFacts: for every method of oci.Store that takes one of the store's locks, the position
+// of the lock statement among the body's statements, the lock taken, whether the next
+// statement defers the matching unlock, and the kinds of the statements before it.
+func lockFacts(lf *leanFile) {
+	var rows []string
+	f := parseFile("content/oci/oci.go")
+	if f == nil {
+		miss("content/oci/oci.go")
+	} else {
+		for _, d := range f.Decls {
+			fd, ok := d.(*ast.FuncDecl)
+			if !ok || fd.Body == nil || fd.Recv == nil || len(fd.Recv.List) != 1 || !strings.HasSuffix(exprString(fd.Recv.List[0].Type), "Store") {
+				continue
+			}
+			for i, st := range fd.Body.List {
+				es, ok := st.(*ast.ExprStmt)
+				if !ok {
+					continue
+				}
+				call, ok := es.X.(*ast.CallExpr)
+				if !ok {
+					continue
+				}
+				fn := exprString(call.Fun)
+				if fn != "s.sync.Lock" && fn != "s.sync.RLock" && fn != "s.indexLock.Lock" {
+					continue
+				}
+				deferred := "no-defer"
+				if i+1 < len(fd.Body.List) {
+					if ds, ok := fd.Body.List[i+1].(*ast.DeferStmt); ok {
+						deferred = "defer " + exprString(ds.Call.Fun)
+					}
+				}
+				var before []string
+				for _, b := range fd.Body.List[:i] {
+					switch x := b.(type) {
+					case *ast.IfStmt:
+						before = append(before, "if "+exprString(x.Cond))
+					default:
+						before = append(before, fmt.Sprintf("%T", b))
+					}
+				}
+				rows = append(rows, fmt.Sprintf("%s:%d:%s:%s:[%s]", fd.Name.Name, i, fn, deferred, strings.Join(before, ";")))
+				break
+			}
+		}
+	}
+	lf.def("ociLockDiscipline", "List String", leanStrList(rows))
+}
